@@ -234,7 +234,9 @@ def judgeOp (j : JSt) (op : String) (rec : String) : JSt × String :=
       ({ j with t := t }, fmtViol (v0 ++ v ++ stuck t))
     | "reload" :: _ :: rest =>
       let (cfg, bad) := parseConfig rest
-      let ok := match rf with | "rc" :: r :: _ => r == "0" | _ => false
+      -- `rc ?`: the end-to-end driver reloads by signal and cannot see the result; the case says
+      -- (`bad=1`) when the file is one the parser rejects
+      let ok := match rf with | "rc" :: r :: _ => r == "0" || r == "?" | _ => false
       let outs := match rf with | ["rc", _, "out", oh] => unhexLines oh | _ => []
       let v : List Violation := if outs.isEmpty then [] else [⟨"C09", "a reload wrote to the server channel"⟩]
       if bad || !ok then (j, fmtViol v)
